@@ -1098,7 +1098,7 @@ def _accumulate_group(output_fields, group_list):
             values = []
             for doc in group_list:
                 try:
-                    values.append(_parse_expression(key, doc))
+                    values.append(_parse_expression(key, doc, ignore_missing_keys=True))
                 except KeyError:
                     continue
             if operator in _GROUPING_OPERATOR_MAP:
